@@ -31,7 +31,7 @@ Bases == {Dve(v, h, r, t, p[1], p[2]) : v \in BVals, h \in BHeights, r \in BRoun
 VoteAtoms(o) ==    {<<o + 1, x>> : x \in Vals} \cup {<<o + 2, x>> : x \in {0, 1}}
               \cup {<<o + 3, x>> : x \in HDom} \cup {<<o + 4, x>> : x \in RDom}
               \cup {<<o + 5, x>> : x \in {1, 2, 32}} \cup {<<o + 6, x>> : x \in BlockIds}
-              \cup {<<o + 7, x>> : x \in Vals \cup {0, -9, -5, -6}}
+              \cup {<<o + 7, x>> : x \in Vals \cup {0, -9, -5, -6, -11, -12, -13}}
 Atoms == VoteAtoms(0) \cup VoteAtoms(10) \cup {<<21, x>> : x \in {-1, 0, 1}} \cup {<<22, x>> : x \in {-1, 1}}
          \cup {<<23, x>> : x \in {-2, -1, 1, 2}}
 
